@@ -115,7 +115,7 @@ theorem decodeGo_esc (qc : Char) (hq : GoodQuote qc) (c : Char) (rest : Str) :
     have hn : hexNum [hexDigit (c.toNat / 16), hexDigit (c.toNat % 16)] = c.toNat := by
       simp [hexNum, v1, v2]; omega
     exact decodeGo_hex _ _ rest e1 e2 c (by rw [hn]; exact chrOf_toNat c)
-  · simp only [escChar, h1, h2, h3, h4, h5, h6, if_false, List.cons_append, List.nil_append]
+  · simp only [escChar, h1, h2, h3, h4, h5, h6, if_false]
     exact decodeGo_cons_plain c rest h1
 
 theorem decodeBody_qBody (qc : Char) (hq : GoodQuote qc) (s : Str) : decodeBody (qBody qc s) = some s := by
